@@ -310,6 +310,12 @@ Definition start_forward (fx : bool) (c : cache) (batch : list entry) : cache * 
   | _ => (c', r)
   end.
 
+(** [StartForward(reserve = true)]: no metadata changes; the mask covers the whole cache.  The worst-case graph is built
+    (Put allocates the K/V storage) but never computed. *)
+Definition reserve_forward (c : cache) (batch : list entry) : cache * out :=
+  let pr := pad_range (cpad c) (0, Z.of_nat (length (cells c)) - 1) in
+  (with_layers c, OFwd (mkFwd 0 (fst pr) (snd pr) [])).     (* the mask of a reservation pass is never computed: not compared *)
+
 (** ** CopyPrefix *)
 Definition copy_cell (src dst : nat) (len : Z) (cl : cell) : cell :=
   let cl1 := if has dst cl then del dst cl else cl in
